@@ -9,13 +9,18 @@ class C06(E1Prop):
     oracle_name = 'c06'
     adversarial_share = 0.0
     nontrivial_tags = ['group-complete', 'commit-reopens']
-    level_text = 'Oracle after every op: for every job group, state = complete iff every committed job of the group and its descendants is terminal, n_jobs = number of those jobs, tallies = recount; likewise batches.state / n_jobs via the root; commit of an update with jobs reopens the groups; at the end of every history the real _get_batch/_get_job_group (real SELECTs + batch_record_to_dict / job_group_record_to_dict) report the same and their assertions do not fire.'
+    level_text = 'Oracle after every op: for every job group, state = complete iff every committed job of the group and its descendants is terminal, n_jobs = number of those jobs, tallies = recount; likewise batches.state / n_jobs via the root; commit of an update with jobs reopens the groups; at the end of every history the real _get_batch/_get_job_group (real SELECTs + batch_record_to_dict / job_group_record_to_dict) report the same and their assertions do not fire. New groups’ ancestor rows = the group + the ancestor chain of the parent its spec names (absolute, or in-update id counted from the update’s first group id), checked at every insertGroups.'
     level_note = ('Partial: the server is harness/minisql (semantics list in trusted_base), every transaction is one atomic step, histories are generated '
                   '(not exhaustive); the Lean model is tied to the code only as far as the compared answers and dumps show. '
                   'Known findings of the unchanged tree are listed in known_findings.json and printed as KNOWN-FINDING.')
 
     def nontrivial(self, r):
         return any(t in r.tags for t in self.nontrivial_tags)
+
+
+    def make_history(self, rng):
+        from ..batchdb import gen
+        return gen.history(rng, knobs={'group_bunches': 0.75})
 
 
 PROP = C06()
